@@ -90,7 +90,7 @@ func cmdRun(args []string) int {
 		return 3
 	}
 	cfg := &interp.Config{
-		Prog: l.prog, HarnessPkgs: harnessPkgs(l), InitPkgs: l.initPkgs, Workers: *workers,
+		Prog: l.prog, HarnessPkgs: harnessPkgs(l), InitPkgs: l.initPkgs, RepoPrefix: repoMod, Workers: *workers,
 		SolverArgv: solverArgv(*solver), TimeoutMs: *timeout, MaxPaths: *maxPaths, Budget: *budget,
 		Params: params, Trace: *trace, SampleEvery: 50, SolverLog: *slog, StopOnFirst: *first, RunCmdInits: *cmdInits, FreshInits: *cmdInits,
 	}
